@@ -175,6 +175,10 @@ def marinated_differs(marinate, path, truth):
               "dx", "boxes", "npoints", "cell_paths", "nfields"):
         if repr(getattr(un, a, None)) != repr(getattr(fresh, a, None)):
             bad.append(a)
+    ba_un, ba_fr = getattr(un, "box_arrays", None), getattr(fresh, "box_arrays", None)
+    if (ba_un is None) != (ba_fr is None) or (ba_fr is not None and (len(ba_un) != len(ba_fr) or any(
+            np.asarray(a).shape != np.asarray(b).shape or not np.array_equal(np.asarray(a), np.asarray(b)) for a, b in zip(ba_un, ba_fr)))):
+        bad.append("box_arrays")
     for lv in range(fresh.limit_level + 1):
         for key in ("files", "offsets"):
             if list(un.cells[lv][key]) != list(fresh.cells[lv][key]): bad.append(f"cells[{lv}][{key}]")
@@ -364,6 +368,18 @@ def run(ctx, rep, model=True):
         run_spec(ctx, rep, spec, model)
         if len(rep.violations) >= 12:
             return
+    if not ctx.quick:
+        # (thorough tier only: writing the plotfile takes a quarter of a minute)
+        rep.count("level-of-36864-boxes")
+        run_spec(ctx, rep, many_boxes_spec(), False, only="marinate")
+
+
+def many_boxes_spec():
+    """one level of 36 864 boxes of 2 x 2 x 2 cells (more boxes than a 16-bit box number can count)"""
+    boxes = [[[2 * i, 2 * j, 2 * k], [2 * i + 1, 2 * j + 1, 2 * k + 1]] for i in range(32) for j in range(32) for k in range(36)]
+    return {"ndims": 3, "fields": ["density", "temp"], "time": 0.5, "geo_low": [0.0, 0.0, 0.0], "dx0": [0.125, 0.125, 0.125],
+            "grid0": [64, 64, 72], "block": 2, "levels": [boxes], "layout": [[[b % 8, b] for b in range(len(boxes))]],
+            "data": {"mode": "smallint", "seed": 11}, "header_style": "amrex", "step": 1}
 
 
 def replay(ctx, rep, obj, model=True):
